@@ -151,6 +151,44 @@ func VerifC10Consistency() {
 			a["deploy"] = map[string]any{"replicas": 1}
 		}
 		bad = shape <= 1 && m != q
+		// a second pair on the same service, itself agreeing or not: every pair is compared, whatever the others say
+		if second := vrtChoice("secondPair", 5); second > 0 {
+			sp := second - 1
+			if sp != pair {
+				attr2 := []string{"pids_limit", "mem_limit", "mem_reservation", "cpus"}[sp]
+				box2 := []string{"limits", "limits", "reservations", "limits"}[sp]
+				key2 := []string{"pids", "memory", "memory", "cpus"}[sp]
+				agree := vrtChoice("secondAgrees", 2) == 1
+				a[attr2] = 2
+				v2 := 2
+				if !agree {
+					v2 = 3
+				}
+				dep, _ := a["deploy"].(map[string]any)
+				if dep == nil {
+					dep = map[string]any{}
+					a["deploy"] = dep
+				}
+				res, _ := dep["resources"].(map[string]any)
+				if res == nil {
+					res = map[string]any{}
+					dep["resources"] = res
+				}
+				bx, _ := res[box2].(map[string]any)
+				if bx == nil {
+					bx = map[string]any{}
+					res[box2] = bx
+				}
+				if key2 == "pids" {
+					bx[key2] = v2
+				} else {
+					bx[key2] = strconv.Itoa(v2)
+				}
+				if !agree {
+					bad = true
+				}
+			}
+		}
 	case 11: // container_name with several replicas
 		s := vrtInt("scale", 0, 3)
 		a["container_name"] = "cn"
